@@ -164,6 +164,13 @@ var touches = []string{
 	"var added = (typeof added == 'number' ? added : 0) + 1; G2 = (typeof G2 == 'number' ? G2 : 0) + 1; log(added, G2);",
 	"goList.push(goList.length); log(goList.join());",
 	"Object.defineProperty(tally, 'n', {value: tally.n + 1, writable: true}); tally.tmp = 1; log(tally.n, delete tally.tmp, typeof tally.tmp);",
+	// objects the runtime creates itself take their prototype from an internal table: write through it
+	"try { decodeURIComponent('%') } catch (e) { var p = Object.getPrototypeOf(e); p.tag = (p.tag || 0) + 1; log(e instanceof URIError, p.tag, URIError.prototype.tag) }",
+	"try { eval('(') } catch (e) { var p = Object.getPrototypeOf(e); p.tag = (p.tag || 0) + 1; log(e instanceof SyntaxError, p.tag, SyntaxError.prototype.tag) }",
+	"try { null.x } catch (e) { var p = Object.getPrototypeOf(e); p.tag = (p.tag || 0) + 1; log(e instanceof TypeError, p.tag, TypeError.prototype.tag) }",
+	"try { undeclared$v } catch (e) { var p = Object.getPrototypeOf(e); p.tag = (p.tag || 0) + 1; log(e instanceof ReferenceError, p.tag, ReferenceError.prototype.tag) }",
+	"try { new Array(-1) } catch (e) { var p = Object.getPrototypeOf(e); p.tag = (p.tag || 0) + 1; log(e instanceof RangeError, p.tag, RangeError.prototype.tag) }",
+	"var mk = [[], {}, function(){}, /x/, new Date(0), Object('s'), Object(1), Object(true), new Error('e'), JSON.parse('[{}]')[0], (function(){ return arguments })(), 'a,b'.split(','), /a/.exec('a')]; for (var mi = 0; mi < mk.length; mi++) { var p = Object.getPrototypeOf(mk[mi]); p.made = (p.made || 0) + 1 } log(Object.prototype.made, Array.prototype.made, Function.prototype.made, RegExp.prototype.made, Date.prototype.made, String.prototype.made, Number.prototype.made, Boolean.prototype.made, Error.prototype.made);",
 }
 
 func touchProgram(r *gen.Rand) string {
@@ -191,6 +198,36 @@ _.templateSettings.tag = (_.templateSettings.tag || 0) + 1; _.own = (_.own || 0)
 log(u.join("|"));
 `
 
+// heavyArgs is heavy with arguments that differ from goroutine to goroutine,
+// so that a process-wide cache keyed (or wrongly not keyed) by an argument —
+// locale, pattern, radix, digits — is read with one value after having been
+// filled with another.
+func heavyArgs(r *gen.Rand) string {
+	tags := []string{"'de'", "'en-US'", "'fr'", "", "'ja'", "'de-CH'", "undefined", "'es'"}
+	pats := []string{"/a+/g", "/A+/gi", "/(a)|(b)/", "/\\d+/", "/^$/m", "/[a-c]+/g", "/a{1,2}/"}
+	var b strings.Builder
+	b.WriteString("var hv = [];\n")
+	for k := 0; k < 6; k++ {
+		switch r.Intn(6) {
+		case 0:
+			b.WriteString(fmt.Sprintf("hv.push((1234567.891).toLocaleString(%s), [1234.5, 0.25].toLocaleString(), new Date(0).toLocaleString().length > 0);\n", tags[r.Intn(len(tags))]))
+		case 1:
+			p := pats[r.Intn(len(pats))]
+			b.WriteString(fmt.Sprintf("hv.push('aab AAB 12'.replace(%s, '[$&]'), %s.test('aab'), 'aab ab'.split(%s).length, new RegExp(%s.source, 'g').exec('xaab') + '');\n", p, p, p, p))
+		case 2:
+			b.WriteString(fmt.Sprintf("hv.push((255.5).toString(%d), (1e21).toString(%d), parseInt('zz', %d), (0.1).toFixed(%d), (12345.678).toPrecision(%d), (0.00001234).toExponential(%d));\n", r.Range(2, 36), r.Range(2, 36), r.Range(2, 36), r.Intn(20), r.Range(1, 20), r.Intn(20)))
+		case 3:
+			b.WriteString(fmt.Sprintf("hv.push(encodeURIComponent(String.fromCharCode(%d, %d) + 'a b'), escape(String.fromCharCode(%d)), decodeURIComponent('%%%02X'));\n", r.Range(32, 0x7ff), r.Range(0x800, 0xd7ff), r.Range(32, 0xffff), r.Range(0x20, 0x7e)))
+		case 4:
+			b.WriteString(fmt.Sprintf("hv.push(JSON.stringify({k: [%d, 'v%d', null]}, null, %d), JSON.parse('[%d, \"s\"]')[0], new Date(%d).toISOString(), Date.UTC(%d, %d));\n", r.Intn(1000), r.Intn(10), r.Intn(5), r.Intn(1000), r.Intn(2000000000)*1000, r.Range(1970, 2100), r.Intn(12)))
+		default:
+			b.WriteString(fmt.Sprintf("hv.push(typeof _ === 'function' ? _.template('<%%= a %%>-%d')({a: %d}) : '', 'Abc'.toLocaleUpperCase(), 'a'.localeCompare('b'), [3, 1, 2].sort(function(a, b){ return %s }).join());\n", r.Intn(100), r.Intn(100), []string{"a - b", "b - a", "0"}[r.Intn(3)]))
+		}
+	}
+	b.WriteString("log(hv.join('|'));\n")
+	return b.String()
+}
+
 func generate(r *gen.Rand, i int) Input {
 	modes := []string{"fresh", "copy", "script", "program", "compile", "underscore"}
 	in := Input{Mode: modes[i%len(modes)], N: []int{2, 8, 32}[r.Intn(3)], Reps: 2}
@@ -200,11 +237,15 @@ func generate(r *gen.Rand, i int) Input {
 	}
 	for k := 0; k < np; k++ {
 		if in.Mode == "copy" {
-			in.Progs = append(in.Progs, touchProgram(r)+heavy)
+			in.Progs = append(in.Progs, touchProgram(r)+heavy+heavyArgs(r))
 			continue
 		}
 		if in.Mode == "underscore" {
-			in.Progs = append(in.Progs, underscoreHeavy+heavy)
+			in.Progs = append(in.Progs, underscoreHeavy+heavy+heavyArgs(r))
+			continue
+		}
+		if (in.Mode == "fresh" || in.Mode == "compile") && r.Chance(1, 2) {
+			in.Progs = append(in.Progs, heavyArgs(r)+heavy)
 			continue
 		}
 		if (in.Mode == "script" || in.Mode == "program") && r.Chance(1, 2) || r.Chance(1, 4) {
